@@ -139,28 +139,180 @@ def r1(chk, prog):
               f.loc(loop))
 
 
-def r2(chk, prog):
-    n = 0
-    for short in ('format', 'formatLine'):
-        f = prog.one('celma::format::TextBlock', short)
-        ops = stream_ops(f)
-        parent_of = {}
-        for c, rhs in ops:
-            lhs = strip_all_casts(call_args(c)[0])
-            if lhs.get('k') == 'CXXOperatorCallExpr' and lhs.get('op') == '<<':
-                parent_of[lhs['id']] = (c, rhs)
-        for c, rhs in ops:
-            if not is_endl(rhs):
+MANIPULATORS = ('setw', 'setfill', 'left', 'right', 'internal', 'setprecision', 'dec', 'hex', 'oct', 'fixed',
+                'boolalpha', 'noboolalpha', 'showbase', 'noshowbase', 'skipws', 'noskipws', 'resetiosflags',
+                'setiosflags', 'flush')
+CLS = 'celma::format::TextBlock'
+
+
+def _plain(q):
+    out, depth = [], 0
+    for ch in q or '':
+        if ch == '<':
+            depth += 1
+        elif ch == '>':
+            depth -= 1
+        elif depth == 0:
+            out.append(ch)
+    return ''.join(out).split('::')[-1]
+
+
+def manipulator_of(rhs):
+    """name of the std manipulator that is streamed, or None"""
+    r = strip_all_casts(rhs)
+    if r.get('k') in CALL_KINDS and _plain(r.get('callee')) in MANIPULATORS and (r.get('callee') or '').startswith('std::'):
+        return _plain(r.get('callee'))
+    if r.get('k') == 'DeclRefExpr' and (r['ref'].get('q') or '').startswith('std::') and \
+            _plain(r['ref'].get('q')) in MANIPULATORS:
+        return _plain(r['ref'].get('q'))
+    return None
+
+
+class IndentModel:
+    """How the text block writes its indentation, read from the source on every run:
+     * blank-string members: std::string members of TextBlock that every constructor builds as string( count, fill)
+     * an 'indent write' in a function is  os << <blank-string member>,  os << setw( n) << ""  (padding of an empty
+       string), or a call of a TextBlock helper all of whose output is one indent write on every path"""
+
+    def __init__(self, chk, prog):
+        self.prog = prog
+        self.blank = {}          # member name -> fill character code
+        ctors = [f for f in prog.functions if f.classq == CLS and f.short == 'TextBlock' and f.inits]
+        chk.require(ctors, 'constructor of TextBlock not found')
+        for f in ctors:
+            for i in f.inits:
+                e = i.get('init')
+                if not isinstance(e, dict):
+                    continue
+                e0 = strip_all_casts(e)
+                if e0.get('k') == 'CXXConstructExpr' and 'basic_string' in (e0.get('callee') or '') and \
+                        len(children(e0)) >= 2 and strip_all_casts(children(e0)[1]).get('k') == 'CharacterLiteral':
+                    name = i.get('field') or i.get('name') or (i.get('ref') or {}).get('name')
+                    self.blank[name] = strip_all_casts(children(e0)[1]).get('val')
+        self._helper = {}
+
+    def events(self, f):
+        """output events of f in no particular order: (node, kind, detail); kind in 'endl', 'indent', 'pad', 'helper',
+        'other'"""
+        res = []
+        for c, rhs in stream_ops(f):
+            if is_endl(rhs):
+                res.append((c, 'endl', None))
                 continue
-            n += 1
-            nxt = parent_of.get(c['id'])
-            ok = nxt is not None and field_name(nxt[1]) == 'mIndentSpaces'
-            chk.check(ok, 'R2', f.name, 'every line break is followed by the indentation', f.loc(c))
-    f = prog.one('celma::format::TextBlock', 'format')
+            if manipulator_of(rhs):
+                continue
+            fn = field_name(rhs)
+            if fn in self.blank:
+                res.append((c, 'indent', fn))
+                continue
+            r0 = strip_all_casts(rhs)
+            if r0.get('k') == 'StringLiteral' and r0.get('val') == '':
+                # an empty string: writes exactly the padding requested by a preceding setw() of the same chain
+                manips = []
+                lhs = strip_all_casts(call_args(c)[0])
+                while lhs.get('k') == 'CXXOperatorCallExpr' and lhs.get('op') == '<<':
+                    m = manipulator_of(call_args(lhs)[1])
+                    if m is None:
+                        break
+                    manips.append((m, strip_all_casts(call_args(lhs)[1])))
+                    lhs = strip_all_casts(call_args(lhs)[0])
+                if any(m == 'setw' for m, _ in manips):
+                    fill = [strip_all_casts(call_args(n)[0]).get('val') for m, n in manips if m == 'setfill']
+                    res.append((c, 'pad', fill))
+                    continue
+            res.append((c, 'other', None))
+        for c in f.calls():
+            q = c.get('callee') or ''
+            if c.get('k') == 'CXXMemberCallExpr' and q.startswith(CLS + '::') and \
+                    any('ostream' in (a.get('t') or '') for a in call_args(c)):
+                g = self.prog.by_name.get(q)
+                g = g[0] if isinstance(g, list) and g else g
+                res.append((c, 'helper', g))
+        return res
+
+    def helper_is_indent(self, g, depth=0):
+        """the helper writes the indentation, once, on every path, and nothing else; returns (bool, [pad events])"""
+        if g is None or g.body is None or depth > 3:
+            return False, []
+        if g.key in self._helper:
+            return self._helper[g.key]
+        ev = self.events(g)
+        pads, ok = [], bool(ev)
+        ids = set()
+        for c, kind, d in ev:
+            if kind == 'indent':
+                ids.add(c['id'])
+            elif kind == 'pad':
+                ids.add(c['id'])
+                pads.append((g, c, d))
+            elif kind == 'helper':
+                sub, sp = self.helper_is_indent(d, depth + 1)
+                ok = ok and sub
+                pads += sp
+                ids.add(c['id'])
+            else:
+                ok = False
+        if ok:
+            cfg = g.cfg
+            counts = path_counts(cfg, cfg.entry, cfg.exit, lambda b: sum(
+                1 for e in cfg.elems(b) if isinstance(e, int) and e in ids))
+            ok = counts == {1}
+        self._helper[g.key] = (ok, pads)
+        return ok, pads
+
+
+def r2(chk, prog):
+    model = IndentModel(chk, prog)
+    pads = []
+    indent_nodes = {}
+    after_endl = set()
+    for short in ('format', 'formatLine'):
+        f = prog.one(CLS, short)
+        cfg = f.cfg
+        ev = model.events(f)
+        is_indent = {}
+        for c, kind, d in ev:
+            if kind == 'indent':
+                is_indent[c['id']] = True
+            elif kind == 'pad':
+                is_indent[c['id']] = True
+                pads.append((f, c, d))
+            elif kind == 'helper' and d is not None and d.short not in ('format', 'formatLine'):
+                okh, ps = model.helper_is_indent(d)
+                is_indent[c['id']] = okh
+                if okh:
+                    pads += ps
+            else:
+                is_indent[c['id']] = False
+        indent_nodes[short] = [c for c, kind, d in ev if is_indent.get(c['id'])]
+        evpos = {cfg.position(c): c for c, kind, d in ev}
+        for c, kind, d in ev:
+            if kind != 'endl':
+                continue
+            b, i = cfg.position(c)
+            seen = cfg.reach((b, i + 1), lambda pos, e: pos in evpos)
+            nxt = [evpos[p] for p in seen if p in evpos]
+            left = any(p[0] == 'exit_from' for p in seen)
+            ok = bool(nxt) and not left and all(is_indent.get(n['id']) for n in nxt)
+            after_endl |= {n['id'] for n in nxt}
+            chk.check(ok, 'R2', f.name, 'every line break is followed by the indentation', f.loc(c),
+                      'leaves the function right after the line break' if left else
+                      'next output: line(s) %s' % sorted({n.get('l') for n in nxt if not is_indent.get(n['id'])}))
+    # the indentation consists of blanks, whatever the state of the stream it is written to
+    chk.require(model.blank or pads, 'how the indentation is written was not recognised (blank string member or padding)')
+    for name, fill in sorted(model.blank.items()):
+        used = any(field_name(call_args(c)[1]) == name for short in indent_nodes for c in indent_nodes[short]
+                   if c.get('k') == 'CXXOperatorCallExpr')
+        if used or not pads:
+            chk.check(fill == 32, 'R2', CLS, 'the indentation consists of blanks', '', 'member %s is filled with %r' % (
+                name, chr(fill) if isinstance(fill, int) else fill))
+    for g, c, fill in pads:
+        chk.check(fill == [32], 'R2', g.name, 'the indentation consists of blanks whatever the state of the stream '
+                  '(fill character)', g.loc(c), 'padding of an empty string is written with the fill character of the '
+                  'caller\'s stream; no std::setfill( \' \') in the expression')
+    f = prog.one(CLS, 'format')
     cfg = f.cfg
-    firsts = [c for c, rhs in stream_ops(f) if field_name(rhs) == 'mIndentSpaces' and
-              not is_endl(call_args(strip_all_casts(call_args(c)[0]))[1]
-                          if strip_all_casts(call_args(c)[0]).get('k') == 'CXXOperatorCallExpr' else {})]
+    firsts = [c for c in indent_nodes['format'] if c['id'] not in after_endl]
     chk.require(len(firsts) == 1, 'format(): first-line indentation not found')
     pos = cfg.position(firsts[0])
     ok = any(cond is not None and mentions_field(cond, 'mIndentFirst') and cfg.guarded_by_edge(pos, bid, 0)
